@@ -424,6 +424,10 @@ class _BuilderWalk:
                 self.param_of[lv] = self.prov(lc.generators[0].iter)
             inner = self._src_value(lc.elt, env)
             again = self._src_value(lc.elt, env)
+            if sep.strip() == '':
+                # a whitespace (or empty) separator: simply the element repeated, like an accumulating loop
+                return [Seg('repeat', body=inner + [Seg('text', sep if sep else ' ')], count=lc.generators[0].iter,
+                            note=f'join over {ast.unparse(lc.generators[0].iter)}')]
             return inner + [Seg('repeat', body=[Seg('text', sep)] + again, count=lc.generators[0].iter,
                                 note=f'join over {ast.unparse(lc.generators[0].iter)}: first element, then '
                                      f'(separator, element) len-1 times', )]
